@@ -2,9 +2,9 @@
 fn to_float<R: Round, const B: Word>(&self, precision: usize) -> Rounded<FBig<R, B>>
 /*@
     requires
-        // B >= 2, precision > 0 (`assert!`), denominator > 0 (type invariant), machine ranges, and -- KNOWN FINDING --
-        // not (odd base and HalfEven/HalfAway): see lib/tf_lemmas.rs tf_to_float_req
-        tf_to_float_req(R::md(), B, precision, self.numerator.v(), self.denominator.v()),
+        // B >= 2, precision > 0 (`assert!`), denominator > 0 (type invariant), resource limits (precision and digit
+        // counts below 2^56): lib/tf_lemmas.rs tf_to_float_req.  Every base >= 2, all six modes.
+        tf_to_float_req(B, precision, self.numerator.v(), self.denominator.v()),
     ensures
         // C06: the exact rational numerator/denominator rounded ONCE to `precision` digits in base B by mode R;
         // Exact means the float equals the rational, Inexact(adj) means it differs and adj names the direction
@@ -31,36 +31,71 @@ fn to_float<R: Round, const B: Word>(&self, precision: usize) -> Rounded<FBig<R,
             lemma_tf_ilog_digits(b, D, den_digits as nat);
         } @*/
 
-        // the quotient gets at least one digit more than the precision
         let shift;
-        let (q, r) = if num_digits > precision + den_digits {
+        let (q, r) = if num_digits >= precision + den_digits {
             shift = 0;
             /*@ proof { assert(ipow(b, 0) == 1); assert(N * 1 == N); } @*/
             (&self.numerator).div_rem(&self.denominator)
         } else {
-            shift = (precision + 1 + den_digits) - num_digits;
+            shift = (precision + den_digits) - num_digits;
             if B == 2 {
                 (&self.numerator << shift).div_rem(&self.denominator)
             } else {
                 (&self.numerator * base.pow(shift)).div_rem(&self.denominator)
             }
         };
-        /*@ let ghost (q0, r0) = (q.v(), r.v());
+        /*@ let ghost (q0, r0, X) = (q.v(), r.v(), N * ipow(b, shift as nat));
             proof {
-                assert(is_trunc_divrem(N * ipow(b, shift as nat), D, q0, r0));
+                assert(is_trunc_divrem(X, D, q0, r0));
                 lemma_tf_quot(b, p, N, D, num_digits as nat, den_digits as nat, shift as nat, q0, r0);
+                lemma_tf_ilog_nd(b, q0);
             } @*/
 
-        // append a sticky digit for the remainder (it is below the guard digit, so it is never taken
-        // for a tie), then the only rounding happens in convert_int
-        let q = q * base + r.signum();
-        /*@ let ghost sh1: isize = (shift + 1) as isize;
-            proof { assert(q.v() == q0 * b + sgn3i(r0)); } @*/
+        // the quotient has at least `precision` digits, the digits beyond the precision are moved
+        // to the remainder, so that the number is rounded only once
+        let extra = q.ilog(&base) + 1 - precision;
+        /*@ let ghost Dn = D * ipow(b, extra as nat);
+            proof { assert(ndigits(b, q0) == p + extra); } @*/
+        let (q, r, den) = if extra > 0 {
+            let scale = base.pow(extra);
+            let (hi, lo) = q.div_rem(&scale);
+            /*@ proof { lemma_tf_split(b, p, X, D, q0, r0, extra as nat, hi.v(), lo.v()); } @*/
+            (hi, lo * &self.denominator + r, &self.denominator * scale)
+        } else {
+            /*@ proof {
+                assert(ipow(b, 0) == 1);
+                assert(is_trunc_divrem(q0, ipow(b, 0), q0, 0));
+                lemma_tf_split(b, p, X, D, q0, r0, 0, q0, 0);
+                assert(0 * D + r0 == r0);
+                assert(D * 1 == D);
+            } @*/
+            (q, r, self.denominator.clone())
+        };
+        /*@ let ghost (hi, r2) = (q.v(), r.v());
+            proof {
+                assert(den.v() == Dn);
+                assert(is_trunc_divrem(X, Dn, hi, r2));
+                assert(ipow(b, (p - 1) as nat) <= iabs(hi) && iabs(hi) < ipow(b, p));
+            } @*/
+        let rounded = if r.is_zero() {
+            Approximation::Exact(q)
+        } else {
+            let adjust = R::round_ratio(&q, r, den.as_ibig());
+            Approximation::Inexact(q + adjust, adjust)
+        };
+        /*@ let ghost rg = rounded;
+            let ghost mm = rd_val0(rounded).v();
+            let ghost sh: isize = (shift as isize - extra as isize) as isize;
+            proof {
+                assert(tf_rounded(R::md(), X, Dn, hi, r2, rounded));
+                lemma_tf_conv_exact::<B>(R::md(), b, precision, mm);
+            } @*/
+
         let context = Context::<R>::new(precision);
-        context
-            .convert_int(q)
-            .map(|f| /*@ -> (o: FBig<R, B>) requires tf_int_repr(f.repr) ensures o == fbig_shr_spec(f, sh1) @*/ f >> (shift as isize + 1))
+        rounded
+            .and_then(|n| /*@ -> (o: Rounded<FBig<R, B>>) requires pos_room(ndigits(b, n.v()) as int) ensures tf_conv_post(R::md(), b, n.v(), context, o) @*/ context.convert_int(n))
+            .map(|f| /*@ -> (o: FBig<R, B>) requires tf_int_repr(f.repr), f.repr.exponent <= precision + 1 ensures o == fbig_shr_spec(f, sh) @*/ f >> (shift as isize - extra as isize))
         /*@ proof {
-            lemma_tf_post::<B>(R::md(), b, precision, N, D, shift as nat, q0, r0, map_repr(ret));
+            lemma_tf_post::<B>(R::md(), b, precision, N, D, shift as nat, extra as nat, hi, r2, rg, map_repr(ret));
         } @*/
     }
